@@ -12,13 +12,13 @@ program input: only enum discriminants and booleans derived from them are tracke
 """
 from .mir import Term, op_place, op_local, op_const, place_key
 
-STD_ENUMS = ("std::option::Option", "std::result::Result", "std::ops::ControlFlow")
+STD_ENUMS = ("core::option::Option", "core::result::Result", "core::ops::control_flow::ControlFlow")
 
 BOOL_FNS = {
-    "std::option::Option::<T>::is_some": ("opt", 1),
-    "std::option::Option::<T>::is_none": ("opt", 0),
-    "std::result::Result::<T, E>::is_ok": ("res", 0),
-    "std::result::Result::<T, E>::is_err": ("res", 1),
+    "core::option::Option::<T>::is_some": ("opt", 1),
+    "core::option::Option::<T>::is_none": ("opt", 0),
+    "core::result::Result::<T, E>::is_ok": ("res", 0),
+    "core::result::Result::<T, E>::is_err": ("res", 1),
 }
 
 
@@ -147,10 +147,10 @@ class Explorer:
                     else:
                         env.links[dl] = ("bool", rl, variant_true, 1)
             return
-        if callee.endswith("as std::ops::Try>::branch") and d["args"]:
+        if callee.endswith("as core::ops::try_trait::Try>::branch") and d["args"]:
             src = op_local(d["args"][0])
-            is_opt = callee.startswith("<std::option::Option")
-            is_res = callee.startswith("<std::result::Result")
+            is_opt = callee.startswith("<core::option::Option")
+            is_res = callee.startswith("<core::result::Result")
             if src is not None and (is_opt or is_res):
                 if src in env.vals:
                     v = env.vals[src]
@@ -160,9 +160,9 @@ class Explorer:
             return
         if callee.endswith("::from_residual") and "FromResidual" in callee:
             dty = d["dty"]
-            if dty.startswith("std::result::Result<"):
+            if dty.startswith("core::result::Result<"):
                 env.vals[dl] = 1
-            elif dty.startswith("std::option::Option<"):
+            elif dty.startswith("core::option::Option<"):
                 env.vals[dl] = 0
             return
 
@@ -297,9 +297,9 @@ def ret_class(body, rv):
     ty = body.local_ty(0)
     if rv is None:
         return "unknown"
-    if ty.startswith("std::result::Result<"):
+    if ty.startswith("core::result::Result<"):
         return "ok" if rv == 0 else "err"
-    if ty.startswith("std::option::Option<"):
+    if ty.startswith("core::option::Option<"):
         return "ok" if rv == 1 else "err"
     if ty == "bool":
         return "ok" if rv == 1 else "err"
